@@ -1099,6 +1099,10 @@ THEOREMS: list[str] = [
     "HappyModel.C11.follower_ae",
     "HappyModel.C11.prev0_not_refused",
     "HappyModel.C11.nack_decrements",
+    "HappyModel.C11.backoff_bound",
+    "HappyModel.C11.conv_rounds",
+    "HappyModel.C11.conv_exists",
+    "HappyModel.C11.conv_exists_example",
     "HappyModel.C11.miLen_step",
     "HappyModel.C11.est_step",
     "HappyModel.C11.sync_step",
@@ -1133,8 +1137,12 @@ C11.partial_theorems = {
         "one-command stable run described by the schedule predicates alone (stableOk_of_progress). "
         "Log back-off is covered by stable_leader_commits_conv / _conv_obs: no in-sync premise, the fairness predicate `convRun` follows the whole "
         "AppendEntries conversation of each follower (refusal, next_index decrement, immediate retry, …) up to a successful acknowledgement. "
-        "NOT PROVED: (1) that this conversation is finite as a statement about runs (the two facts behind it are proved: `nack_decrements` — every refusal lowers "
-        "next_index[p] — and `prev0_not_refused`): `convRun` asks for it to be carried through within the run; the "
+        "The back-off is finite, as a statement about runs: `conv_exists` — from every reachable state with leader L of term t, a live follower p of a term <= t and an "
+        "AppendEntries of term t reaching k in flight to p, the conversation-only schedule `convActs` (deliver it, deliver the reply, deliver the retry, …) of at most "
+        "2·(next_index[p]+2) deliveries satisfies `convRun` (`conv_rounds` is the induction: fuel >= next_index[p] rounds when the message is the one L would build now, "
+        "+1 otherwise; `backoff_bound` the handler-level variant: at most next_index[p]-1 refusals before an accept). "
+        "NOT PROVED: (1) the same bound when other traffic between L and p is interleaved with the conversation (a re-delivered old acknowledgement raises next_index[p] "
+        "again, so the bound then has to count those too): for interleaved runs `convRun` remains a hypothesis; the "
         "one-round versions (stable_leader_commits, `ackedRun`) instead assume the followers of Q in sync at the submit (`inSync`, kept for ever after "
         "under stability by `sync_step`); (2) the model has no clock: that 'delays well "
         "below the election timeout on a fault-free network' yield the schedule predicates (`stableRun`: no term above t reaches L :: Q; `ackedRun`: the "
